@@ -1,9 +1,9 @@
 #!/bin/bash
 # Detection regression: applies every kept seeded change (seeded/<name>/patch.diff) to the scratch
 # worktree /tmp/mrepo in turn and runs the quick check of the property it breaks against it.
-# Every line must say DETECTED. Evidence of these runs goes to a scratch directory, not /verif/evidence.
+# (meta.json may name another property's check under detected_by). Every line must say DETECTED. Evidence of these runs goes to a scratch directory, not /verif/evidence.
 export GOFLAGS=-mod=mod GOPROXY=off GOSUMDB=off GOTOOLCHAIN=local
-W=/tmp/mrepo
+W=${SEED_W:-/tmp/mrepo}
 git -C /repo worktree list | grep -q "$W" || git -C /repo worktree add --detach $W HEAD -f >/dev/null
 git -C $W checkout -q --detach $(git -C /repo rev-parse HEAD)
 EV=$(mktemp -d /tmp/seedrun_ev.XXXXXX)
@@ -11,7 +11,7 @@ rc=0
 for d in /verif/seeded/*/; do
   n=$(basename $d); [ -f $d/patch.diff ] || continue
   [ -n "$1" ] && [[ "$n" != $1* ]] && continue
-  p=$(python3 -c "import json;print(json.load(open('$d/meta.json'))['breaks_property'])")
+  p=$(python3 -c "import json;m=json.load(open('$d/meta.json'));print(m.get('detected_by') or m['breaks_property'])")
   git -C $W checkout -q -- .; git -C $W clean -fdq
   git -C $W apply $d/patch.diff || { echo "$n PATCH-DOES-NOT-APPLY"; rc=1; continue; }
   s=$(date +%s)
